@@ -1,11 +1,18 @@
 //! Kani proof harnesses over the real code of /repo (rust-simplicity).
 //! See /verif/DESIGN.md. Everything deciding a property is `#[cfg(kani)]`.
 #![allow(dead_code, unused_imports, clippy::all)]
+#![cfg_attr(kani, feature(allocator_api))]
 
 pub mod sink;
 #[cfg(kani)]
 mod c13;
 #[cfg(kani)]
+pub mod hcons;
+#[cfg(kani)]
 pub mod vals;
 #[cfg(kani)]
 mod c10;
+#[cfg(kani)]
+mod c14;
+#[cfg(kani)]
+mod micro;
